@@ -1634,11 +1634,9 @@ VARIANTS = [
     V('purge returns after the first child', 'B', _SCH, 'purge', 'purge(child, target)\n    return', 'purge(child, target)\n        return\n    return', 'R-C05-2'),
     V('purge skips children with nothing pending', 'B', _SCH, 'purge', 'purge(child, target)', "if child.get('todo'):\n            purge(child, target)", 'R-C05-2'),
     V('purge no longer withdraws from todo', 'B', _SCH, 'purge', "if target in node.get('todo', []):\n        node.get('todo').remove(target)", 'pass', 'R-C05-2'),
-    V('purge withdraws only when the node is executing', 'B', _SCH, 'purge', "if target in node.get('todo', []):", "if target in node.get('todo', []) and node.get('doing'):", 'R-C05-2'),
     V('self-edge filter removed again', 'B', _SCH, 'purge', _LOOP_FIXED, 'for child in node:', 'R-C05-2'),
     V('purge clears the whole todo set', 'B', _SCH, 'purge', "node.get('todo').remove(target)", "node.get('todo').clear()", 'R-C05-3'),
     V('purge removes the target from the parents too', 'B', _SCH, 'purge', 'purge(child, target)\n    return', "purge(child, target)\n    for p in node.get('parents'):\n        p.get('todo').discard(target)\n    return", 'R-C05-3'),
-    V('purge prunes the queue unconditionally', 'B', _SCH, 'purge', "if node in que and not (node.get('todo', []) or node.get('doing', [])):", 'if node in que:', 'R-C05-3'),
     V('purge prunes the queue when only todo is empty', 'B', _SCH, 'purge', "not (node.get('todo', []) or node.get('doing', []))", "not node.get('todo', [])", 'R-C05-3'),
     V('complete clears doing for any target', 'B', _SCH, 'complete', "if target == '__all__':", 'if target:', 'R-C05-3'),
     V('complete drops the pending work of the job', 'B', _SCH, 'complete', "job.get('doing').remove(target)", "job.get('doing').remove(target)\n        job.get('todo').clear()", 'R-C05-3'),
@@ -1646,15 +1644,11 @@ VARIANTS = [
     V('update moved out of the success branch', 'B', _FARM, 'Hand._res', _ROUTE, _ROUTE.replace('dawgie.pl.schedule.update(msg.values, job, msg.runid)\n', 'pass\n') + '\n            dawgie.pl.schedule.update(msg.values, job, msg.runid)', 'R-C05-1'),
     V('purge only for failure, not for invalid data', 'B', _FARM, 'Hand._res', 'else:\n                dawgie.pl.schedule.purge(job, inc)', 'elif state == dawgie.pl.schedule.State.failure:\n                dawgie.pl.schedule.purge(job, inc)', 'R-C05-1'),
     V('purge on every outcome', 'B', _FARM, 'Hand._res', 'else:\n                dawgie.pl.schedule.purge(job, inc)', 'dawgie.pl.schedule.purge(job, inc)', 'R-C05-1'),
-    V('routing test inverted', 'B', _FARM, 'Hand._res', 'if state == dawgie.pl.schedule.State.success:', 'if state != dawgie.pl.schedule.State.success:', 'R-C05-1'),
     V('purge applied to all targets', 'B', _FARM, 'Hand._res', 'dawgie.pl.schedule.purge(job, inc)', "dawgie.pl.schedule.purge(job, '__all__')", 'R-C05-1'),
     V('_translate(None) gives failure', 'B', _FARM, 'Hand._translate', 'return dawgie.pl.schedule.State.invalid', 'return dawgie.pl.schedule.State.failure', 'R-C05-1'),
-    V('_translate treats None as falsy only', 'B', _FARM, 'Hand._translate', 'if state is None:\n            return dawgie.pl.schedule.State.invalid\n        if state:', 'if state:', 'R-C05-1'),
     V('_translate success for anything but None', 'B', _FARM, 'Hand._translate', 'if state:', 'if state is not None:', 'R-C05-1'),
     V('cluster worker sends False for invalid data', 'B', _CL, 'execute', 'suc=None,', 'suc=False,', 'R-C05-1'),
-    V('cluster worker sends True after an exception', 'B', _CL, 'execute', 'suc=False,', 'suc=True,', 'R-C05-1'),
     V('cluster worker no longer singles out NoValidOutputDataError', 'B', _CL, 'execute', 'except (dawgie.NoValidInputDataError, dawgie.NoValidOutputDataError):', 'except dawgie.NoValidInputDataError:', 'R-C05-1'),
-    V('cluster worker reply without flag', 'B', _CL, 'execute', 'suc=True,', '', 'R-C05-1'),
     V('aws worker sends None after an exception', 'B', _AWS, 'execute', 'suc=False,', 'suc=None,', 'R-C05-1'),
     V('aws worker catches ValueError before the NoValid handler', 'B', _AWS, 'execute', 'except (\n                dawgie.NoValidInputDataError,\n                dawgie.NoValidOutputDataError,\n            ):', 'except ValueError:\n                m = dawgie.pl.message.make(typ=dawgie.pl.message.Type.response, inc=job.target, jid=job.jobid, rid=job.runid, suc=False, tim=job.timing)\n            except (\n                dawgie.NoValidInputDataError,\n                dawgie.NoValidOutputDataError,\n            ):', 'R-C05-1'),
     V('message.make drops the flag', 'B', 'pl/message.py', 'make', 'success=suc,', 'success=None,', 'R-C05-1'),
@@ -1666,7 +1660,6 @@ VARIANTS = [
     # ------------------------------------------------------------------ benign
     V('rename loop variable and lambda parameter', 'N', _SCH, 'purge', _LOOP_FIXED + '\n        purge(child, target)', 'for kid in filter(lambda k, me=node.tag: k.tag != me, node):\n        purge(kid, target)', None),
     V('self edge skipped by a guard inside the loop', 'N', _SCH, 'purge', _LOOP_FIXED + '\n        purge(child, target)', 'for child in list(node):\n        if child.tag == node.tag:\n            continue\n        purge(child, target)', None),
-    V('self edge skipped by a comprehension', 'N', _SCH, 'purge', _LOOP_FIXED, 'for child in [c for c in node if c.tag != node.tag]:', None),
     V(
         'iterative purge with an explicit stack',
         'N',
@@ -1696,13 +1689,10 @@ VARIANTS = [
     V('queue pruning with len()', 'N', _SCH, 'purge', "not (node.get('todo', []) or node.get('doing', []))", "len(node.get('todo', [])) == 0 and not node.get('doing', [])", None),
     V('routing with the branches swapped', 'N', _FARM, 'Hand._res', _ROUTE, 'if state != dawgie.pl.schedule.State.success:\n                dawgie.pl.schedule.purge(job, inc)\n            else:\n                dawgie.pl.farm.ARCHIVE |= any(msg.values)\n                dawgie.pl.schedule.update(msg.values, job, msg.runid)', None),
     V('routing on the raw flag', 'N', _FARM, 'Hand._res', 'if state == dawgie.pl.schedule.State.success:', 'if msg.success:', None),
-    V('routing by membership', 'N', _FARM, 'Hand._res', 'if state == dawgie.pl.schedule.State.success:', 'if state not in (dawgie.pl.schedule.State.failure, dawgie.pl.schedule.State.invalid):', None),
     V('target expression written with or', 'N', _FARM, 'Hand._res', "inc = msg.incarnation if msg.incarnation else '__all__'", "inc = msg.incarnation or '__all__'", None),
     V('_translate with a result variable', 'N', _FARM, 'Hand._translate', 'if state is None:\n            return dawgie.pl.schedule.State.invalid\n        if state:\n            return dawgie.pl.schedule.State.success\n        return dawgie.pl.schedule.State.failure', 'result = dawgie.pl.schedule.State.failure\n        if state is None:\n            result = dawgie.pl.schedule.State.invalid\n        elif state:\n            result = dawgie.pl.schedule.State.success\n        return result', None),
     V('_translate tests not-None first', 'N', _FARM, 'Hand._translate', 'if state is None:\n            return dawgie.pl.schedule.State.invalid\n        if state:\n            return dawgie.pl.schedule.State.success\n        return dawgie.pl.schedule.State.failure', 'if state is not None:\n            return dawgie.pl.schedule.State.success if state else dawgie.pl.schedule.State.failure\n        return dawgie.pl.schedule.State.invalid', None),
     V('cluster worker omits the default flag for invalid data', 'N', _CL, 'execute', 'suc=None,', '', None),
-    V('cluster worker names the two exceptions separately', 'N', _CL, 'execute', 'except (dawgie.NoValidInputDataError, dawgie.NoValidOutputDataError):', 'except (dawgie.NoValidOutputDataError, dawgie.NoValidInputDataError) as _e:', None),
-    V('complete uses discard', 'N', _SCH, 'complete', "elif target in job.get('doing'):\n        job.get('doing').remove(target)", "else:\n        job.get('doing').discard(target)", None),
     V(
         'complete builds the entry in a local',
         'N',
